@@ -35,6 +35,8 @@ def run(ctx):
         ctx.violation("build", "extracted tools do not build: " + err[:200], {"broken": "extraction"}, found_input=False)
         return
     quick = ctx.tier == "quick"
+    from props import c02 as _c02
+    _c02.proofs(ctx, "C13.v", deps=("Machine/CallEquiv.vo",))   # property theorems: build + Print Assumptions audit
     rng = ctx.rng
     n = 120 if quick else 2500
     pairs, verd = [], collections.Counter()
